@@ -163,6 +163,21 @@ def run(ctx):
                 ok, ex = b.all_paths_pass(blocks, set(b.returns()))
                 if not ok:
                     ctx.violation(R2, key + "|close-without-wake", "Receiver::close can return without waking all waiting senders", b.loc())
+                # the wake must act on the shared state that holds the waiters: it has to happen before `self.strong` is replaced
+                swaps = set()
+                for bb2, i2, lhs, rv in b.assignments():
+                    if not isinstance(lhs, int) and "strong" in mir.pl_fields(lhs) and not b.is_cleanup(bb2):
+                        swaps.add(bb2)
+                for bb2 in range(b.n):
+                    t2 = b.term(bb2)
+                    if t2["k"] == "drop" and not isinstance(t2["p"], int) and "strong" in mir.pl_fields(t2["p"]) and not b.is_cleanup(bb2):
+                        swaps.add(bb2)
+                ctx.inst(R2, key + "|close-order", sites=len(swaps), sample={"wake_blocks": sorted(blocks), "strong_replacement_blocks": sorted(swaps)})
+                for sw in sorted(swaps):
+                    late = [w for w in blocks if w in b.reachable(start=sw) and not b.dominates(w, sw)]
+                    if late and not any(b.dominates(w, sw) for w in blocks):
+                        ctx.violation(R2, key + "|wake-after-swap", "Receiver::close wakes the senders only after `self.strong` was replaced: the wake-up acts on the fresh, empty waiter list and the "
+                                      "senders registered in the old shared state are dropped unwoken", b.loc(sw))
         if not found:
             ctx.anchor_missing(R2, "Receiver::close")
     found = False
